@@ -2,5 +2,8 @@
 # usage: check.sh <ID> <quick|thorough>   — thin wrapper so MANIFEST commands stay short
 cd "$(dirname "$0")"
 . ./env.sh
+# every check builds an instrumented copy of /repo under a new path, so the Go build cache only grows: above 30 GB,
+# entries not used for two hours are dropped (the cache is a cache; nothing a check needs lives only there)
+gc=$(go env GOCACHE 2>/dev/null); if [ -n "$gc" ] && [ -d "$gc" ] && [ "$(du -sm "$gc" 2>/dev/null | cut -f1)" -gt 30000 ]; then find "$gc" -type f -mmin +120 -delete 2>/dev/null; fi
 [ -x bin/verif ] && [ -x bin/verif-instrument ] || ./setup.sh >/dev/null || exit 2
 exec ./bin/verif check "$1" --tier "${2:-quick}"
